@@ -191,3 +191,32 @@ def add_conversions(u, only=None):
                       % (tt, dst.name, tt, dst.name, dst.lit(elems)))
                 done.append(('tuple', dst.name))
     return done
+
+
+# ------------------------------------------------------------------ spatial core (mode R)
+def add_spatial_basic(u, sh):
+    """magnitude, distance(_squared), normalized, (Vec3) cross — definitions"""
+    from sym import SV
+    from matcore import veq
+    import expr as X
+    P, N = sh.path, sh.name
+    gh = 'impl<T>%s<T>' % N
+    a, b = SV.of(sh, 'self'), SV.of(sh, 'v')
+    n2 = a.norm2()
+    u.take(P, gh, 'magnitude', C(ensures=['res.v@ == sqrt_r(%s)' % dot_expr(sh, 'self', 'self')]))
+    d2 = sub_dot(sh, 'self', 'v')
+    u.take(P, gh, 'distance_squared', C(ensures=['res.v@ == ' + d2]))
+    u.take(P, gh, 'distance', C(ensures=['res.v@ == sqrt_r(%s)' % d2]))
+    mag = 'sqrt_r(%s)' % dot_expr(sh, 'self', 'self')
+    u.take(P, gh, 'normalized', C(ensures=['res.%s.v@ == self.%s.v@ / %s' % (f, f, mag) for f in sh.fields]))
+    if N == 'Vec3':
+        bb = SV.of(sh, 'b')
+        u.take(P, gh, 'cross', C(ensures=veq(sh, 'res', a.cross(bb))))
+
+
+def sub_dot(sh, a, b):
+    e = None
+    for i in range(sh.dim):
+        t = '(%s - %s) * (%s - %s)' % (ev(sh, a, i), ev(sh, b, i), ev(sh, a, i), ev(sh, b, i))
+        e = t if e is None else '(%s + %s)' % (e, t)
+    return e
